@@ -21,5 +21,6 @@ W(b, i) == <<b[i], b[i+1], b[i+2], b[i+3]>>
 U32(x) == << x \div 16777216, (x \div 65536) % 256, (x \div 256) % 256, x % 256 >>
 \* concatenation of a sequence of 4-octet words
 FlatW(ws) == LET n == Len(ws) IN SubSeq([i \in 1..(4*n) |-> ws[((i-1) \div 4) + 1][((i-1) % 4) + 1]], 1, 4*n)
-IsPrefix(a, b) == Len(a) <= Len(b) /\ SubSeq(b, 1, Len(a)) = a
+\* <<1, ..., n>>: iteration domain for FoldLeft (Java-implemented, iterative: no deep recursion on long inputs)
+Idx(n) == SubSeq([i \in 1..n |-> i], 1, n)
 ===========================================================================
